@@ -102,6 +102,8 @@ def fit_items(page):
     pb = page._page_box
     bottom = Fraction(pb.content_box_y()) + Fraction(pb.height)
     items = []
+    kinds = []
+    fit_items.kinds = kinds
 
     def walk(box, state):
         for child in getattr(box, 'children', []):
@@ -116,10 +118,12 @@ def fit_items(page):
             if child.is_column:
                 state = {'first': True}
             if isinstance(child, boxes.TableRowBox):
+                kinds.append('row')
                 items.append((Fraction(child.position_y) + Fraction(child.height), state['first']))
                 state['first'] = False
                 continue
             if isinstance(child, boxes.LineBox):
+                kinds.append('line')
                 items.append((Fraction(child.position_y) + Fraction(child.height), state['first']))
                 state['first'] = False
                 continue
@@ -132,6 +136,11 @@ def explain_fits(meta):
     """Finding id (C03) explaining a rejected geometry trace, or None."""
     if {'columns', 'table'} <= set(meta.get('features', ())):
         return 'table-in-columns-rows-overflow'
+    bottom = Fraction(meta['bottom']) * (1 + Fraction(1, 10**9))
+    items, kinds = meta['items'], meta.get('kinds', [])
+    offenders = [i for i, (b, first) in enumerate(items) if Fraction(b) > bottom and not first]
+    if items and Fraction(items[0][0]) > bottom and offenders and all(kinds[i] == 'row' for i in offenders):
+        return 'table-rows-after-overflowing-first-item'
     return None
 
 
@@ -160,6 +169,7 @@ def fits_cases(rng, features=None):
         bottom, items = fit_items(page)
         line = sx.line('fits', bottom, [[b, f] for b, f in items])
         meta = {'html': doc['html'], 'page_index': index, 'bottom': str(bottom),
-                'items': [[str(b), f] for b, f in items], 'features': doc['features']}
+                'items': [[str(b), f] for b, f in items], 'kinds': list(fit_items.kinds),
+                'features': doc['features']}
         out.append((line, meta, list(doc['features']) + [f'items{min(len(items), 9)}']))
     return out
